@@ -1998,7 +1998,7 @@ namespace awkward {
         }
 
         input_names_.push_back(name);
-        input_must_be_writable_.push_back(true);
+        input_must_be_writable_.push_back(false);
 
         pos += 2;
       }
@@ -2430,7 +2430,7 @@ namespace awkward {
           else {
             must_be_writable &= ((bytecode & READ_BIGENDIAN) != 0);
           }
-          input_must_be_writable_[input_index] = must_be_writable;
+          input_must_be_writable_[input_index] = input_must_be_writable_[input_index]  ||  must_be_writable;
 
           bool good = true;
           I nbits = 0;
@@ -2699,6 +2699,12 @@ namespace awkward {
           if (!found_in_dictionary) {
             int64_t num;
             if (is_integer(word, num)) {
+              if (num != (int64_t)(int32_t)num) {
+                throw std::invalid_argument(
+                  err_linecol(linecol, pos, pos + 1, "integer literal does not fit in 32 bits")
+                  + FILENAME(__LINE__)
+                );
+              }
               bytecodes.push_back(CODE_LITERAL);
               bytecodes.push_back((int32_t)num);
 
@@ -2792,6 +2798,7 @@ namespace awkward {
           I format = ~bytecode & READ_MASK;
 
           if (format == READ_VARINT) {
+            if (~bytecode & READ_DIRECT) { count_writes_++; }
             ForthInputBuffer* input = current_inputs_[(IndexTypeOf<int64_t>)in_num].get();
             ForthOutputBuffer* output = nullptr;
             if (~bytecode & READ_DIRECT) {
@@ -2832,6 +2839,7 @@ namespace awkward {
           }
 
           else if (format == READ_ZIGZAG) {
+            if (~bytecode & READ_DIRECT) { count_writes_++; }
             ForthInputBuffer* input = current_inputs_[(IndexTypeOf<int64_t>)in_num].get();
             ForthOutputBuffer* output = nullptr;
             if (~bytecode & READ_DIRECT) {
@@ -2875,6 +2883,7 @@ namespace awkward {
           }
 
           else if (format == READ_NBIT) {
+            if (~bytecode & READ_DIRECT) { count_writes_++; }
             // For bit-flipping: https://stackoverflow.com/a/2603254/1623645
             bool flip = (~bytecode & READ_BIGENDIAN) != 0;
 
